@@ -13,13 +13,13 @@ CLAIMED = {
          "The harness' own MIME reader is the oracle (disagreement with the stdlib readers is reported as a harness error, never as a violation). QP text is generated with CRLF/LF breaks only; caller-chosen boundaries are not generated.",
          "DESIGN.md section 3, C01"),
  "C02": ("exploration",
-         "rapid-generated hostile strings (CR/LF injection payloads with markers, NUL/control, invalid UTF-8, specials, encoded-word lookalikes, long words) fed to every text-accepting setter; oracle: strict RFC 5322 header-section scan (field multiset == model), RFC 2047 decode == string set, own address parser, leaf content unchanged",
-         "Generated-input search against a model of the expected header fields of every section. Setters, shapes and strings are sampled; nothing is enumerated exhaustively.",
+         "rapid-generated hostile strings (CR/LF injection payloads with markers, NUL/control, invalid UTF-8, specials, encoded-word lookalikes, printf/template tokens, long words) fed to every text-accepting setter, plus the complete product of 22 setters x ~75 single hostile strings x 2 encoders x 4 shapes; oracle: strict RFC 5322 header-section scan (field multiset == model), RFC 2047 decode == string set, own address parser, leaf content unchanged",
+         "Generated-input search against a model of the expected header fields of every section. The setter x single-hostile-string product is enumerated completely; combinations are sampled.",
          "*Preformatted setters and header names are out of scope by the property's statement. Values that consist of printable ASCII and contain encoded-word syntax are a recorded known finding (ew-lookalike-verbatim) and are excluded by signature, counted in the evidence.",
          "DESIGN.md section 3, C02"),
  "C03": ("fault_enumeration",
          "rapid-generated histories: batches of generated messages x injected render faults (producer failing before/inside/after its content, deleted attachment file) x transport faults (drop after k DATA bytes) x reply scripts; oracle: commit log of the reference server vs. the harness' own reference rendering, IsDelivered/HasSendError vs. the 2yz end-of-data replies actually sent",
-         "Fault injection at generated positions (producer x position class, DATA byte offset classes, reply position x outcome) over generated batches; sampled by rapid, not exhaustive.",
+         "TestC03Enum enumerates, for batches of 1, 2 and 3 messages: every step id x {4yz, 5yz, drop}, every producer x {before, mid, after}, their product for the 3-batch, and a drop at every 40th content byte; everything else is sampled by rapid.",
          "The reference rendering is taken with Msg.WriteTo before the send (C11 checks that renders are repeatable); 8bit parts carry CRLF line breaks only; in-memory transport; watchdog time-outs are inconclusive.",
          "DESIGN.md section 3, C03"),
  "C04": ("fault_enumeration",
@@ -38,7 +38,7 @@ CLAIMED = {
          "For *IgnoreInvalid the model only demands a subsequence of the valid inputs that contains every valid ASCII-named input (what happens to valid non-ASCII names is not fixed by the property) and follows the getter there.",
          "DESIGN.md section 3, C06"),
  "C07": ("fault_enumeration",
-         "exhaustive product of TLS policy x 13 auth types x host kind x server behaviour (STARTTLS advertised/refused/garbled, certificate valid/wrong-name/untrusted, garbage handshake, AUTH lists) over real TCP with the default dialers and the client's default tls.Config; oracle: byte-exact cleartext tap scanned for non-permitted commands and for every encoding of the per-case random credentials",
+         "exhaustive product of TLS policy x 13 auth types x host kind x server behaviour (STARTTLS advertised/refused/garbled, certificate valid/wrong-name/untrusted, garbage handshake, AUTH lists) over real TCP with the default dialers and the client's default tls.Config; oracle: byte-exact cleartext tap scanned for non-permitted commands and for every encoding of the per-case random credentials; plus 18 host names around the localhost rule over in-memory connections",
          "The configuration product is enumerated completely in both tiers (quick: 2 advertised AUTH lists, thorough: 7); credentials are fresh random tokens per case.",
          "Real TCP on 127.0.0.1/127.0.0.2; the harness CA is installed as the only system root through SSL_CERT_FILE so that the client's default verification is what is tested; server behaviours are the enumerated ones, not arbitrary byte streams.",
          "DESIGN.md section 3, C07"),
@@ -50,7 +50,7 @@ CLAIMED = {
  "C09": ("exploration",
          "grammar-based EML generator + structure-aware mutations + renderings of generated messages + arbitrary bytes, under six reader behaviours (rapid); repository fixtures and a hostile-constant corpus under every reader behaviour; thorough adds native coverage-guided fuzzing (go test -fuzz) with the oracle inside the target; oracle: returns without panic within a generous wall-clock bound",
          "Generated-input search for crashes and hangs; sampled. Native fuzzing cannot be pinned to a seed: its campaigns are evidence of effort, its crashers are the reproducible artefact.",
-         "Inputs up to 64 KiB; termination is observed (20 s bound, must repeat three times), not proved.",
+         "Inputs up to 64 KiB; termination is observed (10 s bound, three orders of magnitude above normal, must repeat three times in a row), not proved.",
          "DESIGN.md section 3, C09"),
  "C10": ("exploration",
          "round-trip property over rapid-generated message programs within the parser's feature set: build -> render -> EMLToMsgFromReader -> compare getters with the generator's model -> render again -> independent MIME reader compares leaves and checks header sections for duplicated fields",
@@ -58,9 +58,9 @@ CLAIMED = {
          "A file's declared content type and chosen transfer encoding are not required to survive; descriptions and caller-chosen content-ids are outside the parser's feature set; 7bit/8bit contents are generated legal for those encodings.",
          "DESIGN.md section 3, C10"),
  "C11": ("exploration",
-         "rapid-generated message programs x generated histories of render operations (WriteTo, Write, NewReader, UpdateReader, WriteToFile, WriteToTempFile, failed renders by sink or producer fault); metamorphic oracle: every successful output is byte-identical to the first",
+         "rapid-generated message programs (one in five S/MIME-signed) x generated histories of render operations (WriteTo, Write, NewReader, UpdateReader incl. partly-read readers, WriteToFile, WriteToTempFile, Send to the reference server, failed renders by sink or producer fault); metamorphic oracle: every successful output is byte-identical to the first",
          "Generated histories against a byte-equality oracle; shapes, file sources/encodings and op sequences are sampled by rapid. Map-order dependent differences need several renders to show, so every history renders at least 4 times.",
-         "Send as an output path is compared in C03 (commit log vs. reference render), not here; S/MIME histories are covered by C08's double render.",
+         "Send is compared modulo what DATA does to any content (exact model of textproto's dot-writer); for S/MIME-signed histories the per-render outer boundary is masked and the signature part ignored; a transmitted copy is never the reference.",
          "DESIGN.md section 3, C11"),
  "C12": ("fault_enumeration",
          "rapid-generated message programs x exhaustive sink-offset fault injection (every byte offset, two sink modes, first/second render) + producer fault injection; oracle: no panic, err != nil, returned count == bytes accepted by the sink",
@@ -78,17 +78,17 @@ CLAIMED = {
          "Unicode credentials are restricted to fixed points of SASLprep and PRECIS (no independent normaliser offline); NUL (and ^A for XOAUTH2) are not generated; SCRAM's local refusal of PRECIS-forbidden strings is a permitted outcome.",
          "DESIGN.md section 3, C14"),
  "C15": ("fault_enumeration",
-         "bounded-exhaustive enumeration of adversarial server message sequences (alphabet of 11 valid/forged/malformed SCRAM messages and final replies) driven through smtp.Client.Auth, judged by a reference tracker of the exchange (own RFC 5802 implementation)",
+         "bounded-exhaustive enumeration of adversarial server message sequences (alphabet of 12 valid/forged/replayed/malformed SCRAM messages and final replies; also with an Auth object that completed an exchange on an earlier connection) driven through smtp.Client.Auth, judged by a reference tracker of the exchange (own RFC 5802 implementation)",
          "Exhaustive for all sequences up to length 5 (PLUS: 4) in quick and 7 (PLUS: 6) in thorough over the stated alphabet, with pruning only after the client aborted or the exchange ended; for SCRAM-SHA-1/-256 and both PLUS variants over a real TLS 1.2 handshake.",
          "Fixed credentials and PBKDF2 iteration count 4; the alphabet is finite and chosen by the harness; the bare-235 acceptance is a recorded known finding (scram-bare-235), excluded by signature and counted.",
          "DESIGN.md section 3, C15"),
  "C16": ("exploration",
-         "rapid-generated mechanisms x random secrets x server scripts (success, 535 / malformed challenge / disconnect at each exchange step, extra challenge) x logger kinds; oracle: search of every captured log record for the secret in raw/hex/base64(3 alignments) form and for the secret-carrying SASL response lines the reference server recorded, plus presence of the post-auth MAIL line (window closed)",
+         "rapid-generated mechanisms x random secrets x server scripts (success, 535 / malformed challenge / disconnect at each exchange step, extra challenge) x logger kinds, through mail.Client and through the exported smtp.Client API (Auth with or without a prior Hello); oracle: search of every captured log record for the secret in raw/hex/base64(3 alignments) form and for the secret-carrying SASL response lines the reference server recorded, plus presence of the post-auth MAIL line (window closed)",
          "Generated-input search with a leak-detection oracle driven by what the reference server actually received; sampled.",
          "Secrets are alphanumeric (so JSON escaping cannot hide them) and >= 12 characters (so needles cannot match by chance); user names and mechanism names are not treated as secrets.",
          "DESIGN.md section 3, C16"),
  "C17": ("fault_enumeration",
-         "stall-point fault injection: the reference server goes silent at every enumerated step of the dial and send dialogues (incl. TLS handshake, AUTH challenges, inside DATA content with a bounded buffer) x TLS policy x auth class x call {DialWithContext, DialAndSend, Send, Reset} x timeout; oracle: the call returns a non-nil error within max(20 x timeout, 15 s), misses must repeat twice",
+         "stall-point fault injection: the reference server goes silent at every enumerated step of the dial and send dialogues (incl. TLS handshake, AUTH challenges, inside DATA content with a bounded buffer) x TLS policy x auth class x call {DialWithContext, DialAndSend, Send, Reset} x timeout, also on a connection obtained through the fallback port; oracle: the call returns a non-nil error within max(20 x timeout, 15 s), misses must repeat twice",
          "Complete for the enumerated stall points (one per command position per TLS mode and auth mechanism class); boundedness is observed with real clocks, not proved.",
          "Wall-clock oracle with a bound >= 20x the configured timeout and >= 15 s (crypto/tls may spend 5 s on close_notify when the peer stopped reading); in-memory transport with deadline support implemented by the harness.",
          "DESIGN.md section 3, C17"),
@@ -98,9 +98,9 @@ CLAIMED = {
          "Header lines > 78 with a folding opportunity inside MIME *part* headers (written through multipart.CreatePart) are a recorded known finding (part-header-unfolded), excluded by signature and counted; the 78 rule is enforced without exception on top-level header sections, all other rules on all sections and bodies.",
          "DESIGN.md section 3, C18"),
  "C19": ("fault_enumeration",
-         "enumeration of every failure point (each step id of the recorded fault-free dialogue x {4yz, 5yz, drop, garbage}, missing STARTTLS/AUTH, foreign mechanisms, untrusted certificate) across TLS policies x auth types x DialWithContext/DialAndSend, plus rapid multi-fault scripts; oracle: Close was called on the tracking net.Conn handed out through WithDialContextFunc",
+         "enumeration of every failure point (each step id of the recorded fault-free dialogue x {4yz, 5yz, drop, garbage}, missing STARTTLS/AUTH, foreign mechanisms, untrusted certificate) across TLS policies x auth types x DialWithContext/DialAndSend, plus rapid multi-fault scripts, plus the same failure points over real TCP with the default dialers; oracle: Close was called on the tracking net.Conn handed out through WithDialContextFunc (TCP: server-side end of connection within 2 s)",
          "The enumerated space (policy x auth x capability variant x call x step x outcome) is covered completely in thorough (garbage replies only at greet/starttls in quick); multi-fault scripts are sampled.",
-         "Connections are in-memory conns injected through WithDialContextFunc, so the default dialers (net.Dialer, tls.Dialer for implicit TLS) are not exercised; Close on the tracking conn is the oracle, not server-side EOF.",
+         "Primary oracle: Close on in-memory tracking connections injected through WithDialContextFunc. Secondary oracle (213 cases): real TCP with the default dialers incl. implicit TLS, the reference server must see the connection end within 2 s of the return, GC switched off.",
          "DESIGN.md section 3, C19"),
  "C20": ("fault_enumeration",
          "reply injection (codes 400..599 x text kinds x positions MAIL/RCPT subset/DATA/end-of-data/RSET x batches x ESC advertised or not) against the reference server; oracle: a model computed from the replies the server actually sent (reason, code, temporariness, enhanced code, rejected recipients, per-message and joined errors)",
